@@ -257,7 +257,11 @@ class MoveLog:
                 lines.append(f"evo.cands t={tname} {enc}")  # choice resolved below from the candidate list
             else:
                 lines.append(f"evo.step t={tname} ch={tok} g={g} {enc}")
-            lines.append(f"evo.cands t={tname} {enc}")
+            # the full pair-candidate list costs one reachability search per edge: on large circuits sample it
+            if tname in ("add_emitter_cnot", "add_measurement_cnot_and_reset") and len(before["nodes"]) > 30 and (k_item := len(lines)) % 5 != 0:
+                lines.append("evo.ops")
+            else:
+                lines.append(f"evo.cands t={tname} {enc}")
         reps = drv.batch(lines) if lines else []
         for k, (before, tname, tok, g, kind, after, n_obs, note) in enumerate(self.items):
             r_step, r_c = reps[2 * k], reps[2 * k + 1]
@@ -290,7 +294,7 @@ class MoveLog:
                 res.exact_break("evo.step:" + tname, input=inp, impl=wu.encode(after), model=r_step["_raw"][:900])
                 continue
             n_model = int(r_c.get("n", -1))
-            if n_model != n_obs:
+            if "cands" in r_c and n_model != n_obs:
                 res.exact_break("evo.cands:" + tname, input=inp, impl=f"randint drew from {n_obs} candidates", model=r_c["_raw"][:300])
                 continue
             if len(res.samples) < 6 and kind != "noop":
@@ -613,6 +617,183 @@ def check_alternate_target(ctx, res):
     res.extra["alternate_target_circuits_checked"] = done
 
 
+# ---------------------------------------------------------------------------------------------------------------- builds
+class BuildObserver:
+    """records, per circuit object, the construction history of the deterministic solvers by diffing the wire snapshot
+    around every circuit-editing helper of TimeReversedSolver and around CircuitDAG.add (AlternateTargetSolver)"""
+
+    HELPERS = ["_add_one_qubit_gate", "_add_one_emitter_cnot", "_add_emitter_photon_cnot", "_add_measurement_cnot_and_reset"]
+
+    def __init__(self):
+        self.hist = {}  # id(circuit) -> {"circ": circuit, "ops": [...], "bad": None | str, "ne": .., "np": ..}
+        self._saved = []
+
+    def entry(self, circ):
+        return self.hist.setdefault(id(circ), {"circ": circ, "ops": [], "bad": None, "ne": circ.n_emitters, "np": circ.n_photons,
+                                               "nc": circ.n_classical})
+
+    @staticmethod
+    def classify(before, after):
+        """-> op token or None (nothing changed); raises ValueError if the edit is not one construction step"""
+        bn, an = before["nodes"], after["nodes"]
+        added = sorted(set(an) - set(bn))
+        removed = sorted(set(bn) - set(an))
+        changed = sorted(n for n in set(an) & set(bn) if an[n] != bn[n])
+        if not added and not removed and not changed:
+            if before["wires"] != after["wires"]:
+                raise ValueError("wires changed without node change")
+            return None
+        if len(added) == 1 and not removed and not changed:
+            k = added[0]
+            kind, gates, q, c, fixed = an[k]
+            for r in q:
+                w = after["wires"][r]
+                if not w or w[0] != k:
+                    # appended at the end? (AlternateTargetSolver conversion gates)
+                    if kind == "G" and len(q) == 1 and q[0][0] == "p" and w and w[-1] == k and not fixed:
+                        return f"ag:{q[0][1:]}:{gates[0]}"
+                    raise ValueError(f"node {k} not directly after {r}_in")
+            for r, w in after["wires"].items():
+                if tuple(x for x in w if x != k) != before["wires"][r] or (r[0] == "c" and k in w):
+                    raise ValueError(f"wire {r} changed beyond the insertion")
+            if kind == "W" and not fixed:
+                return f"fg:{q[0]}:{wu.dots(gates)}"
+            if kind == "CNOT" and q[0][0] == "e" and q[1][0] == "e" and not fixed:
+                return f"cx:{q[0][1:]}:{q[1][1:]}"
+            if kind == "CNOT" and q[0][0] == "e" and q[1][0] == "p" and fixed:
+                return f"em:{q[0][1:]}:{q[1][1:]}"
+            if kind == "MCR" and q[0][0] == "e" and q[1][0] == "p" and fixed and c == (0,):
+                return f"mcr:{q[0][1:]}:{q[1][1:]}"
+            raise ValueError(f"unexpected new operation {an[k]}")
+        if len(changed) == 1 and not added and not removed and before["wires"] == after["wires"]:
+            k = changed[0]
+            kind, gates, q, c, fixed = an[k]
+            if kind != "W" or fixed or after["wires"][q[0]][0] != k:
+                raise ValueError(f"replacement {an[k]} not of the first wrapper")
+            return f"rf:{q[0]}:{wu.dots(gates)}"
+        if len(removed) == 1 and not added and not changed:
+            k = removed[0]
+            kind, gates, q, c, fixed = bn[k]
+            if kind != "W" or before["wires"][q[0]][0] != k:
+                raise ValueError(f"removal of {bn[k]} which is not the first wrapper")
+            for r, w in before["wires"].items():
+                if tuple(x for x in w if x != k) != after["wires"][r]:
+                    raise ValueError(f"wire {r} changed beyond the removal")
+            return f"xf:{q[0]}"
+        raise ValueError(f"not one construction step: +{added} -{removed} ~{changed}")
+
+    def around(self, circ, call):
+        ent = self.entry(circ)
+        before = wu.snapshot(circ)
+        out = call()
+        try:
+            tok = self.classify(before, wu.snapshot(circ))
+            if tok is not None:
+                ent["ops"].append(tok)
+        except ValueError as e:
+            if ent["bad"] is None:
+                ent["bad"] = f"after {len(ent['ops'])} steps: {e}"
+        return out
+
+    def __enter__(self):
+        from graphiq.circuit.circuit_dag import CircuitDAG
+        from graphiq.solvers.time_reversed_solver import TimeReversedSolver
+
+        obs = self
+        for name in self.HELPERS:
+            orig = getattr(TimeReversedSolver, name)
+            self._saved.append((TimeReversedSolver, name, orig))
+
+            def make(orig):
+                def wrapped(solver, circuit, *a, **k):
+                    return obs.around(circuit, lambda: orig(solver, circuit, *a, **k))
+                return wrapped
+
+            setattr(TimeReversedSolver, name, make(orig))
+        orig_add = CircuitDAG.add
+        self._saved.append((CircuitDAG, "add", orig_add))
+
+        def add(circ, op):
+            if id(circ) in obs.hist:
+                return obs.around(circ, lambda: orig_add(circ, op))
+            return orig_add(circ, op)
+
+        CircuitDAG.add = add
+        return self
+
+    def __exit__(self, *a):
+        for cls, name, orig in self._saved:
+            setattr(cls, name, orig)
+        self._saved = []
+
+
+def check_builds(ctx, res, drv):
+    """construction order of TimeReversedSolver / AlternateTargetSolver against the model (`trs.build`): the recorded
+    history must be accepted by the discipline of the model and produce exactly the returned circuit"""
+    from graphiq.backends.stabilizer.compiler import StabilizerCompiler
+    from graphiq.metrics import Infidelity
+    from graphiq.solvers.time_reversed_solver import TimeReversedSolver
+    from graphiq.state import QuantumState
+
+    n_trs = 12 if ctx.quick else 120
+    n_alt = 2 if ctx.quick else 10
+    finals = []  # (tag, history entry, final circuit)
+    for _ in range(n_trs):
+        n = ctx.rng.randint(2, 7 if ctx.quick else 9)
+        g = random_connected_graph(ctx.rng, n)
+        target = QuantumState(g, rep_type="g")
+        comp = StabilizerCompiler()
+        comp.measurement_determinism = 1
+        with BuildObserver() as obs:
+            try:
+                s = TimeReversedSolver(target=target, metric=Infidelity(target), compiler=comp)
+                s.solve()
+            except Exception as e:  # noqa: BLE001
+                res.notes.append(f"TimeReversedSolver raised {type(e).__name__} on {sorted(g.edges())}"[:200])
+                continue
+        for ent in obs.hist.values():
+            finals.append((f"trs:{sorted(g.edges())}", ent, s.result[1]))
+    try:
+        from graphiq.solvers.alternate_target_solver import AlternateTargetSolver, AlternateTargetSolverSetting
+    except Exception:  # noqa: BLE001
+        AlternateTargetSolver = None
+    if AlternateTargetSolver is not None:
+        for _ in range(n_alt):
+            n = ctx.rng.randint(3, 5)
+            g = random_connected_graph(ctx.rng, n)
+            with BuildObserver() as obs:
+                try:
+                    solver = AlternateTargetSolver(target=g, solver_setting=AlternateTargetSolverSetting(n_iso_graphs=2, n_lc_graphs=3),
+                                                   noise_model_mapping=None, seed=ctx.rng.randrange(1000))
+                    solver.solve()
+                except Exception as e:  # noqa: BLE001
+                    res.notes.append(f"AlternateTargetSolver raised {type(e).__name__}: {e}"[:200])
+                    continue
+            for ent in obs.hist.values():
+                finals.append((f"alt:{sorted(g.edges())}", ent, ent["circ"]))
+    lines = []
+    keep = []
+    for tag, ent, final in finals:
+        res.evaluations += 1
+        res.branch(["build:" + tag.split(":")[0]])
+        inp = {"fn": "construction", "start": tag, "ops": ent["ops"]}
+        if not oracle(res, final, None, "solver:" + tag.split(":")[0], inp):
+            continue
+        if ent["bad"]:
+            res.exact_break("trs.build:diff", input=inp, impl=ent["bad"], model="the edit is not a construction step of the model")
+            continue
+        res.nontrivial("build", tuple(ent["ops"]))
+        lines.append(f"trs.build ne={ent['ne']} np={ent['np']} ops={','.join(ent['ops']) or '-'}")
+        keep.append((inp, wu.snapshot(final)))
+    reps = drv.batch(lines) if lines else []
+    for (inp, snap), r in zip(keep, reps):
+        if r["_status"] != "ok" or wu.decode(r) != snap:
+            res.exact_break("trs.build", input=inp, impl=wu.encode(snap), model=r["_raw"][:600])
+        else:
+            res.traces_validated += 1
+    res.extra["construction_histories_checked"] = len(keep)
+
+
 # ---------------------------------------------------------------------------------------------------------------- entry
 def run(ctx):
     res = Result()
@@ -629,12 +810,12 @@ def run(ctx):
         check_assignment(ctx, res, drv, EvolutionarySolver)
         check_initialization(ctx, res, drv, rs)
         log = MoveLog(res, table)
-        starts = start_circuits(ctx, res, rs, 6 if ctx.quick else 20)
-        n_moves = 300 if ctx.quick else 5000
-        per = max(20, n_moves * (4 if ctx.quick else 3) // max(1, len(starts)))
-        t_budget = 70 if ctx.quick else 900
+        starts = start_circuits(ctx, res, rs, 6 if ctx.quick else 12)
+        t_budget = 80 if ctx.quick else 700
         t0 = time.time()
-        for tag, solver, circ in starts:
+        for k, (tag, solver, circ) in enumerate(starts):
+            # quick: histories of 200 moves; thorough: two histories of 5000 moves, the others 1000
+            per = 200 if ctx.quick else (5000 if k in (0, len(starts) // 2) else 1000)
             check_cnot_helpers(res, drv, solver, circ, tag)
             ok = run_history(ctx, res, log, solver, circ, per, rs, tag)
             log.flush(drv)
@@ -666,6 +847,8 @@ def run(ctx):
                     ma = [ctx.rng.randrange(n_p) for _ in range(n_e)]
                     circ = solver.initialization(list(ea), ma)
                     exhaustive_candidates(ctx, res, drv, table, solver, circ, f"init:{ea}:{ma}", 1 if ctx.quick else 2, rs, [0, 13])
+        if not res.violations:
+            check_builds(ctx, res, drv)
         if not res.violations:
             check_alternate_target(ctx, res)
     finally:
